@@ -1376,12 +1376,14 @@ class ExtendedZoneProcessor: public ZoneProcessor {
     }
 
     /**
-     * Normalize DateTuple::minutes if its magnitude is more than 24
-     * hours.
+     * Normalize DateTuple::minutes into [0, 24h) by moving whole days into
+     * the date. Negative minutes must be folded as well: DateTuples are
+     * compared field by field, so (Nov 1, -60min) would otherwise sort after
+     * (Oct 31, 23:30).
      */
     static void normalizeDateTuple(extended::DateTuple* dt) {
       const int16_t kOneDayAsMinutes = 60 * 24;
-      if (dt->minutes <= -kOneDayAsMinutes) {
+      if (dt->minutes < 0) {
         LocalDate ld = LocalDate::forTinyComponents(
             dt->yearTiny, dt->month, dt->day);
         local_date_mutation::decrementOneDay(ld);
